@@ -112,6 +112,17 @@ Theorem C03_complete_code_accepted : forall lens,
 Proof. exact tree_of_lens_complete. Qed.
 Print Assumptions C03_complete_code_accepted.
 
+(** Basis of the decoder's trivial-literal shortcut: one-symbol red/blue/alpha codes
+    are read without consuming bits and yield the group's constants. *)
+Theorem C03_trivial_literal_eq : forall lr lb la tr tb ta l1 r l2 b l3 a,
+  tree_of_lens lr = Ok tr -> tree_of_lens lb = Ok tb -> tree_of_lens la = Ok ta ->
+  lens_items lr = [(l1, r)] -> lens_items lb = [(l2, b)] -> lens_items la = [(l3, a)] ->
+  forall s,
+  ('(r', s1) <- read_symbol tr s ;; '(b', s2) <- read_symbol tb s1 ;; '(a', s3) <- read_symbol ta s2 ;;
+   Ok (a', r', b', s3)) = Ok (a, r, b, s).
+Proof. exact trivial_literal_eq. Qed.
+Print Assumptions C03_trivial_literal_eq.
+
 (** the textbook recurrence of the code values: +1, then shift by the length increase *)
 Theorem C03_canonical_recurrence : forall W l1 l2, l1 <= l2 <= 15 -> (wt l1 | W) ->
   (W + wt l1) / wt l2 = (W / wt l1 + 1) * 2 ^ (l2 - l1).
